@@ -14,7 +14,7 @@ BOUNDS = ['mod:m_bound_spec', 'fn:Predicate::flip', 'fn:Bound::upper', 'fn:Bound
 RANGE_SPEC = ['mod:m_range_spec']
 SAT = ['fn:BoundSet::satisfies', 'fn:Range::satisfies', 'fn:Version::satisfies']
 DESUGAR_FNS = ['caret_desugar', 'partial_desugar', 'tilde_desugar', 'hyphen_desugar'] + ['primitive_desugar_' + op for op in ('Exact', 'GreaterThan', 'GreaterThanEquals', 'LessThan', 'LessThanEquals')]
-DESUGAR = ['clauses:' + f for f in DESUGAR_FNS] + ['fn:Partial::normalize', 'fn:Version::from@m_desugar', 'fn:Version::from@m_version', 'fn:number_check']
+DESUGAR = ['clauses:' + f for f in DESUGAR_FNS] + ['fn:Partial::normalize', 'fn:Version::from@m_desugar', 'fn:Version::from@m_version', 'fn:number_check', 'fn:identifier_classify']
 FROM_U64 = ['fn:Version::from@m_version']
 
 TEXT_SHELL = 'winnow text layer (tokenisation of a range / version text into operator + Partial values, `separated`, `alt`, `garbage`) is not under contract: the property is decided at AST level'
@@ -44,8 +44,8 @@ PROPS = {
     ),
     'C04': dict(
         title='Version precedence is the SemVer total order; Eq, Ord, Hash agree',
-        obligations=ORDER + ['fn:Version::hash', 'fn:lemma_eq_same_feed', 'fn:lemma_c04_total_order', 'fn:lemma_c04_build_irrelevant', 'fn:lemma_c04_eq_iff_equal', 'fn:lemma_c04_spec_examples'],
-        assumptions=[STD, 'identifier classification at parse time (`identifier()` closure: str::parse::<u64>) is text shell'],
+        obligations=ORDER + ['fn:identifier_classify', 'fn:Version::hash', 'fn:lemma_eq_same_feed', 'fn:lemma_c04_total_order', 'fn:lemma_c04_build_irrelevant', 'fn:lemma_c04_eq_iff_equal', 'fn:lemma_c04_spec_examples'],
+        assumptions=[STD, 'which identifier texts std parses as u64 (parse_spec is uninterpreted); the winnow call around the identifier() closure'],
         not_decided=['sort/min/max consistency is std\'s contract for a lawful Ord; lawfulness is what is proved'],
         witness='c04',
     ),
